@@ -256,20 +256,26 @@ def cover_tests(ctx, spec_listed):
     q = ctx.quick
     jobs = []
     plans = [("cover", "doc", 3, T_CORE if q else t_all(), 0.04 if q else 1.0),
-             ("cover_afe", "doc", 4 if q else 5, T_FMT, 0.06 if q else 1.0),
+             ("cover_afe", "doc", 4 if q else 5, T_FMT, 0.02 if q else 1.0),
              ("cover", "tableish", 2, T_CORE if q else t_all(), 0.03 if q else 0.5),
              ("cover_tbl", "doc", 4 if q else 5, T_TBL, 0.25 if q else 1.0)]
     for theme, cont, n, toks, frac in plans:
         r = ctx.tlc("MC_TreeCover", cover_cfg(theme, cont, n, spec_listed), "cover-%s-%s" % (theme, cont), heap="16g")
         ctx.notes["cover_prefixes_%s_%s" % (theme, cont)] = len(r.records)
         recs = sorted(r.records, key=lambda x: (len(x["src"]), x["src"], x["cx"]))
+        seen_cls = set()
         for rec in recs:
             base = core.ucs(rec["src"])
             cx = None if rec["cx"] == NONE else core.ucs(rec["cx"])
+            # stratified: the shortest prefix of every coarse class (mode, current node, drop-LF / table-text / AFE flags,
+            # tokenizer state) gets EVERY token; the other prefixes are sampled
+            key = json.dumps([rec["cx"], rec["cls"]])
+            first = key not in seen_cls and cont != "tableish"
+            seen_cls.add(key)
             for t in toks:
-                if frac < 1.0 and ctx.rng.random() > frac:
+                if not first and frac < 1.0 and ctx.rng.random() > frac:
                     continue
-                for w in ("", "x"):
+                for w in (("",) if first and q else ("", "x")):
                     d = base + t + w
                     if not unmodelled(d, cx):
                         if theme == "cover_afe":          # the list of active formatting elements compares node attributes: both builders
@@ -277,6 +283,7 @@ def cover_tests(ctx, spec_listed):
                             jobs.append((d, cx, False, "etree"))
                         else:
                             jobs.append((d, cx, False, "dom" if (len(d) + len(t)) % 2 else "etree"))
+        ctx.notes["cover_classes_%s_%s" % (theme, cont)] = len(seen_cls)
     return jobs
 
 
